@@ -73,40 +73,51 @@ def history(rid, cache_type, mask, out_sel1, cut_sel1, out_sel2, cut_sel2, full1
     t = R[rid]
     try:
         with NoTracing():
+            outs = [o for fs in t for o in fs.outputs]
+            names = runt.all_names(t)
+            prod = runt.producers(t)
+        mut = L.concretize(mut, 0, 3)
+        # the caches hash the argument values: case-split them up front
+        a0, a1, newval = (L.concretize(x, 0, 1) for x in (a0, a1, newval))
+        b0 = 1 - a0
+        a2, b1, b2 = a0, a1, a0
+        calls = []
+        for osel, csel, full, vals in ((out_sel1, cut_sel1, full1, (a0, a1, a2)), (out_sel2, cut_sel2, full2, (b0, b1, b2))):
+            osel = L.concretize(osel, 0, len(outs) - 1)
+            if not (0 <= osel < len(outs)):
+                return True
+            out = outs[osel]
+            cuts = sorted(runt.valid_cuts(t, out))
+            if region in ("roots", "mutation"):
+                cuts = [c for c in cuts if not any(nm in prod for nm in c)]
+            else:
+                cuts = [c for c in cuts if any(nm in prod for nm in c)] + [c for c in cuts if not any(nm in prod for nm in c)][:1]
+            csel = L.concretize(csel, 0, len(cuts) - 1)
+            if not (0 <= csel < len(cuts)):
+                return True
+            calls.append((out, cuts[csel], full, vals))
+        if same_vals:
+            calls[1] = (calls[1][0], calls[1][1], calls[1][2], calls[0][3])
+        else:  # the second call differs from the first in the first value only (keeps the case split small)
+            calls[1] = (calls[1][0], calls[1][1], calls[1][2], (b0, calls[0][3][1], calls[0][3][2]))
+        interior_supplied = any(nm in prod for _, cut, _, _ in calls for nm in cut)
+        if region == "interior" and not interior_supplied:
+            return True
+        with NoTracing():
             from engine import shims
 
             shims.TOK.clear()
             pc, pu, log_c, log_u, cached = _twins(t, cache_type, mask)
-            runt.warm(pc)
-            runt.warm(pu)
-            outs = [o for fs in t for o in fs.outputs]
-            names = runt.all_names(t)
-        mut = L.concretize(mut, 0, 3)
-        calls = []
-        for osel, csel, full, vals in ((out_sel1, cut_sel1, full1, (a0, a1, a2)), (out_sel2, cut_sel2, full2, (b0, b1, b2))):
-            osel = L.concretize(osel, 0, len(outs) - 1)
-            out = outs[osel]
-            cuts = sorted(runt.valid_cuts(t, out))
-            csel = L.concretize(csel, 0, len(cuts) - 1)
-            cut = cuts[csel]
-            calls.append((out, cut, full, vals))
-        if same_vals:
-            calls[1] = (calls[1][0], calls[1][1], calls[1][2], calls[0][3])
-        prod = runt.producers(t)
-        interior_supplied = any(nm in prod for _, cut, _, _ in calls for nm in cut)
+            for o_ in {c[0] for c in calls}:
+                runt.warm(pc, o_)
+                runt.warm(pu, o_)
         mutated = False
-        if region == "roots" and (interior_supplied or mut):
-            return True
-        if region == "interior" and (mut or not interior_supplied):
-            return True
-        if region == "mutation" and (interior_supplied or not mut):
-            return True
         for k, (out, cut, full, vals) in enumerate(calls):
             if k == 1 and mut:
                 mutated = _mutate(pc, t, mut, newval) and _mutate(pu, t, mut, newval)
                 with NoTracing():
-                    runt.warm(pc)
-                    runt.warm(pu)
+                    runt.warm(pc, out)
+                    runt.warm(pu, out)
             kw = {nm: vals[names.index(nm) % 3] for nm in cut}
             with NoTracing():
                 n_before = len(log_c)
@@ -122,7 +133,9 @@ def history(rid, cache_type, mask, out_sel1, cut_sel1, out_sel2, cut_sel2, full1
                         return fail("full_output differs with caching")
             elif not (rc == ru):
                 return fail("cached pipeline returned a different value")
-            if k == 1 and not mutated and calls[0][:2] == calls[1][:2] and same_vals and not interior_supplied and not calls[0][2] and not calls[1][2]:
+            all_roots = {prm for fs in t for prm in fs.params if prm not in prod and prm not in fs.bound}
+            explicit = all_roots & {prm for fs in t if fs.name in runt.ref_eval(t, out, kw)[1] for prm in fs.params} <= set(cut)
+            if k == 1 and not mutated and calls[0][:2] == calls[1][:2] and same_vals and not interior_supplied and not calls[0][2] and not calls[1][2] and explicit:
                 # repeated equal call: cached functions whose entry is resident are not re-executed
                 for nm in list(log_c)[n_before:]:
                     if nm in cached:
@@ -196,13 +209,17 @@ def obligations(tier):
         t = R[rid]
         nf = len(t)
         nouts = len([o for fs in t for o in fs.outputs])
-        masks = [(1 << nf) - 1, 1 << (nf - 1), 0b101 & ((1 << nf) - 1)] if not thorough else list(range(1, 1 << nf))
+        masks = [(1 << nf) - 1, 1 << (nf - 1)] if not thorough else list(range(1, 1 << nf))
         for ct in ctypes:
             for mask in sorted(set(masks)):
                 for region in ("roots", "interior", "mutation"):
                     if not thorough and region != "roots" and (ct != "lru" or mask != (1 << nf) - 1):
                         continue
-                    pre = [f"{nouts - 2} <= out_sel1 < {nouts} and {nouts - 2} <= out_sel2 < {nouts}", "0 <= cut_sel1 <= 40 and 0 <= cut_sel2 <= 40", vpre, "0 <= newval <= 1"]
+                    if not thorough and ct == "simple" and mask != (1 << nf) - 1:
+                        continue
+                    pre = [(f"{nouts - 2} <= out_sel1 < {nouts}" if thorough else f"out_sel1 == {nouts - 1}") + " and out_sel2 == out_sel1", f"0 <= cut_sel1 <= {40 if thorough else 2} and 0 <= cut_sel2 <= {40 if thorough else 2}",
+                           "0 <= a0 <= 1 and " + ("0 <= a1 <= 1" if thorough else "a1 == 0") + " and b0 == 0 and a2 == 0 and b1 == 0 and b2 == 0",
+                           "0 <= newval <= 1" if region == "mutation" else "newval == 0", "not full1"]
                     if region == "roots":
                         pre += ["mut == 0"]
                     elif region == "interior":
@@ -217,10 +234,10 @@ def obligations(tier):
                             f"H.history({rid!r}, {ct!r}, {mask}, {PA}, {region!r})",
                             timeout=600,
                             flags=("tokpickle",) if ct == "disk" else (),
-                            bounds=f"{rid}: cache {ct}, cached-function mask {mask:b}; two calls (last two outputs, every valid set of supplied names, full_output "
-                            f"symbolic, values 0..1, equal or different) - region {region}: "
-                            + {"roots": "root arguments only, no mutation", "interior": "an intermediate value is supplied in some call (known finding F24)",
-                               "mutation": "update_defaults / update_bound / replace between the calls (known finding F25)"}[region],
+                            bounds=f"{rid}: cache {ct}, cached-function mask {mask:b}; two calls (last output; last two in the thorough tier; every valid set of supplied names, full_output "
+                            f"symbolic, two values 0..1, second call equal or differing in the first value) - region {region}: "
+                            + {"roots": "root arguments only, no mutation", "interior": "an intermediate value is supplied in some call",
+                               "mutation": "update_defaults / update_bound / replace between the calls"}[region],
                             canaries=("last_root_arg_missing_from_key",) if (rid, ct, region) == ("R2", "lru", "roots") and mask == (1 << nf) - 1 else (),
                         )  # fmt: skip
                     )
